@@ -107,40 +107,7 @@ def _work(args):
     return out
 
 
-def table_d_sample(tier, sd):
-    """One-descriptor templates: Table D sequences of versions >= 19 (shaping by the table file only)."""
-    rnd = random.Random(sd * 7 + 8)
-    versions = [33] if tier == 'quick' else [19, 25, 33, 41]
-    out = {}
-    for mv in versions:
-        with open(os.path.join(fm94.table_dirs(mv)[0], 'TableD.json')) as f:
-            td = json.load(f)
-        with open(os.path.join(fm94.table_dirs(mv)[0], 'TableB.json')) as f:
-            tb = json.load(f)
-
-        def expand(key, depth=0):
-            ids = []
-            for m in td[key][1]:
-                if m.startswith('3') and m in td and depth < 10:
-                    ids += expand(m, depth + 1)
-                else:
-                    ids.append(m)
-            return ids
-        keys = sorted(td)
-        rnd.shuffle(keys)
-        picked = []
-        for k in keys:
-            flat = expand(k)
-            ndel = sum(1 for d in flat if d.startswith('1') and d.endswith('000'))
-            ok = all((d in tb or not d.startswith('0')) for d in flat) and not any(d.startswith('3') for d in flat)
-            ops = [d for d in flat if d.startswith('2')]
-            if ok and ndel <= 3 and len(flat) <= 60 and all(d[:3] in ('201', '202', '204', '207', '208') for d in ops) \
-                    and not any(d in ('031011', '031012') for d in flat):
-                picked.append([int(k)])
-            if len(picked) >= (25 if tier == 'quick' else 60):
-                break
-        out[mv] = picked
-    return out
+table_d_sample = catalogue.table_d_sample
 
 
 POOL = [([14001, 12001], 13), ([14001, 12001], 33), ([102002, 12001, 2001], 33),
